@@ -2,8 +2,8 @@ CONSTANTS
   TLen = 5
   NPrim = 3
   NMat = 1
-  MaxObj = 4
-  MaxDepth = 3
+  MaxObj = 5
+  MaxDepth = 2
 SPECIFICATION Spec
 CONSTRAINT Bounded
 INVARIANT TypeOK
